@@ -447,7 +447,7 @@ func c18Real(c c18Case) (string, string) {
 func runC18(r *rep.R) {
 	D := 3
 	if thorough(r) {
-		D = 4
+		D = 5
 	}
 	r.SetRule(fmt.Sprintf("a case is one history of operations on one connection; all histories of length <= %d over 18 operation kinds (session opens succeeding / failing at the Open Session status, RAKP 2 and RAKP 4 checks / with discovery / with no supported suite; commands succeeding, failing with a code, failing on body decode, retried once or twice, retried after garbage, losing the reply, expiring the context, failing to serialise; closes succeeding and failing), a 60-step structured history with each kind inserted at each position, and DialV2/transport-close histories over UDP loopback; the deltas of every bmc_* counter and gauge read from prometheus.DefaultGatherer must equal an accounting of what the harness observed (calls made, errors returned, transmissions, valid responses delivered with their codes, opens and closes)", D))
 	var idx int64
